@@ -67,6 +67,8 @@ def gen_inputs(ctx):
         "class A { string s = \"é漢\U0001F600\"; int é = s; }\ndef d : A { let s = \"ß\"; }",
         "include \"é.td\"\r\nclass A;\r\n\r\nclass B : A {\r\n  int x;\r\n}\r\n",
         "﻿class A;\nclass B : A;",
+        "\ufeff/*\u00e9*/class Base; class D : Base { int x = 1; }\n//\u00e9\r\ndef X : D { let x = 2; }",
+        "\ufeff// \u6f22\u5b57\r\nclass A<int a> { int f = a; }\r\ndef d : A<1>;",
         "class A { string s = \"caf\u00e9",
         "class A; /* \u6f22",
         "class A; class B : A; def d : B;",
